@@ -221,7 +221,16 @@ def _attempt(payload):
             from biogeme.parameters import Parameters
 
             twin, _ = build.build(payload['twin_spec'])
-            bg = BIOGEME(db, {'log_like': twin, 'other_formula': expr}, parameters=Parameters())
+            # ... first, in the middle or last among two or three formulas (the audit must keep the findings of every one)
+            import zlib
+            import biogeme.expressions as ex_
+
+            layout = zlib.crc32(json.dumps(spec['ast']).encode()) % 4
+            forms = [{'other_formula': expr, 'log_like': twin}, {'log_like': twin, 'other_formula': expr},
+                     {'log_like': twin, 'other_formula': expr, 'third_formula': ex_.Numeric(1.5)},
+                     {'other_formula': expr, 'third_formula': ex_.Numeric(1.5), 'log_like': twin}][layout]
+            out['layout'] = list(forms)
+            bg = BIOGEME(db, forms, parameters=Parameters())
             out['constructed'] = True
             sim = bg.simulate({n: payload['twin_spec']['betas'].get(n, spec['betas'].get(n, [0.1]))[0] for n in bg.free_beta_names})
             out['value'] = sim['other_formula'].to_numpy(dtype=float).tolist()
@@ -491,7 +500,7 @@ def _plant_case(case, rec):
             entries.append('create_function')
         elif extra_entry < 0.8:
             entries.append('prepared_ids')
-        if rr.random() < 0.35 and kind not in ('beta_named_as_column', 'free_and_fixed_same_name'):
+        if rr.random() < 0.5 and kind not in ('beta_named_as_column', 'free_and_fixed_same_name'):
             entries.append('BIOGEME_secondary_formula')
         if rr.random() < 0.3 and kind in ('unknown_column', 'draws_outside_mc', 'rv_outside_integrate',
                                            'logit_choice_not_in_utilities', 'logit_av_keys_differ'):
